@@ -4,10 +4,13 @@
 (* Besides the abstract state, every hand-back carries a digest of the complete request /  *)
 (* response pair of the main-process object at the instant of the put (dq), which must be  *)
 (* the digest of the proxy-side flow after the item has been applied.                      *)
+(* Once a check of a trace has failed the implementation and the model may have parted     *)
+(* ways, so the rest of that trace is consumed unchecked (broken) -- the failure is what    *)
+(* gets reported, not a follow-up environment mismatch.                                    *)
 EXTENDS HttpFlow, Integers, Json, IOUtils, TLCExt
 TraceLog == ndJsonDeserialize(IOEnv.TRACE_FILE)
-VARIABLES l, tid, dq
-tvars == <<vars, l, tid, dq>>
+VARIABLES l, tid, dq, broken
+tvars == <<vars, l, tid, dq, broken>>
 
 Chk(name, cond) == IF cond THEN TRUE ELSE PrintT(ToJson([fail |-> name, line |-> l, tid |-> tid]))
 Env(name, cond) == Assert(cond, <<"driver violated environment assumption", name, l>>)
@@ -22,12 +25,13 @@ PutsMatch == /\ Len(Rec.puts) = Len(NewItems)
                                             /\ Rec.puts[i][3] = E(NewItems[i].meta)
 NewDigests == [i \in 1..Len(NewItems) |-> IF i <= Len(Rec.puts) THEN Rec.puts[i][4] ELSE "?"]
 
-TInit == Init /\ l = 1 /\ tid = -1 /\ dq = <<>>
+TInit == Init /\ l = 1 /\ tid = -1 /\ dq = <<>> /\ broken = FALSE
+Skip == UNCHANGED <<vars, tid, dq, broken>>
 \* {"ev":"Reset","tid":n} starts a trace; {"ev":"Target","tgt":[kind,s,r]} names the flow's URL
 TTarget == /\ IsEvent("Target")
            /\ Env("fresh", px.phase = "start")
            /\ tgt' = [k |-> Rec.tgt[1], s |-> Rec.tgt[2], r |-> Rec.tgt[3]]
-           /\ UNCHANGED <<px, fromQ, toQ, mf, hb, ap, handled, fixed, out, calls, tid, dq>>
+           /\ UNCHANGED <<px, fromQ, toQ, mf, hb, ap, handled, fixed, out, calls, tid, dq, broken>>
 TReset == /\ IsEvent("Reset")
           /\ UNCHANGED tgt
           /\ px' = [phase |-> "start", icpt |-> FALSE, meta |-> Meta0]
@@ -35,47 +39,67 @@ TReset == /\ IsEvent("Reset")
           /\ hb' = [e \in Events |-> 0] /\ ap' = [e \in Events |-> 0] /\ handled' = {}
           /\ fixed' = [browser |-> FALSE, rinj |-> FALSE, preempted |-> FALSE]
           /\ out' = [n |-> "init", exc |-> FALSE, res |-> "ok"]
-          /\ calls' = 0 /\ dq' = <<>> /\ tid' = Rec.tid
+          /\ calls' = 0 /\ dq' = <<>> /\ tid' = Rec.tid /\ broken' = FALSE
 \* {"ev":"InterceptRequest","browser":b,"hdr":b,"q":[event type, E(meta of the queued state)]}
 TIReq == /\ IsEvent("InterceptRequest")
-         /\ Env("start", px.phase = "start")
-         /\ InterceptRequest(Rec.browser, Rec.hdr)
-         /\ Chk("InterceptRequest.queued", Rec.q = <<"request", E(fromQ'[Len(fromQ')].meta)>>)
-         /\ UNCHANGED <<tid, dq>>
+         /\ IF broken THEN Skip ELSE
+            /\ Env("start", px.phase = "start")
+            /\ InterceptRequest(Rec.browser, Rec.hdr)
+            /\ LET c == Rec.q = <<"request", E(fromQ'[Len(fromQ')].meta)>> IN
+                 Chk("InterceptRequest.queued", c) /\ broken' = ~c
+            /\ UNCHANGED <<tid, dq>>
 TIResp == /\ IsEvent("InterceptResponse")
-          /\ Env("mid", px.phase = "mid" /\ ~px.icpt /\ toQ = <<>> /\ ~(px.meta.pinj /\ AssetKind(px.meta.cap.k))
-                        /\ (Rec.bridge => ~px.meta.pinj))
-          /\ InterceptResponse(Rec.bridge)
-          /\ Chk("InterceptResponse.queued", Rec.q = <<"response", E(fromQ'[Len(fromQ')].meta)>>)
-          /\ UNCHANGED <<tid, dq>>
+          /\ IF broken THEN Skip ELSE
+             /\ Env("mid", px.phase = "mid" /\ ~px.icpt /\ toQ = <<>> /\ ~(px.meta.pinj /\ AssetKind(px.meta.cap.k))
+                           /\ (Rec.bridge => ~px.meta.pinj))
+             /\ InterceptResponse(Rec.bridge)
+             /\ LET c == Rec.q = <<"response", E(fromQ'[Len(fromQ')].meta)>> IN
+                  Chk("InterceptResponse.queued", c) /\ broken' = ~c
+             /\ UNCHANGED <<tid, dq>>
 \* {"ev":"Handle","cfg":{..},"puts":[..],"mf":[taken,resumed,E(meta)]}
 THandle == /\ IsEvent("Handle")
-           /\ Env("queued", fromQ # <<>>)
-           /\ HandleBody(Rec.cfg)
-           /\ Chk("Handle.handed-back", PutsMatch)
-           /\ Chk("Handle.flow", Rec.mf = <<mf'.taken, mf'.resumed, E(mf'.meta)>>)
-           /\ Chk("Handle.exactly-once", hb'[mf'.ev] = 1 \/ (hb'[mf'.ev] = 0 /\ Rec.mf[1] /\ ~Rec.mf[2]))
-           /\ dq' = dq \o NewDigests
-           /\ UNCHANGED tid
+           /\ IF broken THEN Skip ELSE
+              /\ Env("queued", fromQ # <<>>)
+              /\ HandleBody(Rec.cfg)
+              /\ LET c1 == PutsMatch
+                     c2 == Rec.mf = <<mf'.taken, mf'.resumed, E(mf'.meta)>>
+                     c3 == Len(Rec.puts) = 1 \/ (Len(Rec.puts) = 0 /\ Rec.mf[1] /\ ~Rec.mf[2])
+                 IN /\ Chk("Handle.exactly-once", c3)
+                    /\ Chk("Handle.handed-back", c1)
+                    /\ Chk("Handle.flow", c2)
+                    /\ broken' = ~(c1 /\ c2 /\ c3)
+              /\ dq' = dq \o NewDigests
+              /\ UNCHANGED tid
 \* {"ev":"AddonCall","op":..,"mod":b,"res":"ok"|"assert","puts":[..],"mf":[..]}
 TCall == /\ IsEvent("AddonCall")
-         /\ Env("held", mf.ev # "none" /\ (Rec.mod => Rec.op = "resume" /\ mf.taken))
-         /\ AddonCall(Rec.op, Rec.mod)
-         /\ Chk("AddonCall.result", Rec.res = out'.res)
-         /\ Chk("AddonCall.handed-back", PutsMatch)
-         /\ Chk("AddonCall.flow", Rec.mf = <<mf'.taken, mf'.resumed, E(mf'.meta)>>)
-         /\ dq' = dq \o NewDigests
-         /\ UNCHANGED tid
+         /\ IF broken THEN Skip ELSE
+            /\ Env("held", mf.ev # "none" /\ (Rec.mod => Rec.op = "resume" /\ mf.taken))
+            /\ AddonCall(Rec.op, Rec.mod)
+            /\ LET c1 == Rec.res = out'.res
+                   c2 == PutsMatch
+                   c3 == Rec.mf = <<mf'.taken, mf'.resumed, E(mf'.meta)>>
+               IN /\ Chk("AddonCall.result", c1)
+                  /\ Chk("AddonCall.handed-back", c2)
+                  /\ Chk("AddonCall.flow", c3)
+                  /\ broken' = ~(c1 /\ c2 /\ c3)
+            /\ dq' = dq \o NewDigests
+            /\ UNCHANGED tid
 \* {"ev":"Apply","bad":b,"item":[kind,E(meta)],"px":[intercepted,E(meta)],"pd":digest}
 TApply == /\ IsEvent("Apply")
-          /\ Env("item", toQ # <<>> /\ (Rec.bad => Head(toQ).kind = "callback"))
-          /\ Apply(Rec.bad)
-          /\ Chk("Apply.item", Rec.item = <<Head(toQ).kind, E(Head(toQ).meta)>>)
-          /\ Chk("Apply.resumed", Rec.px[1] = px'.icpt)
-          /\ (~Rec.bad => Chk("Apply.metadata-intact", Rec.px[2] = E(px'.meta)))
-          /\ (~Rec.bad => Chk("Apply.state-intact", Len(dq) > 0 /\ Rec.pd = Head(dq)))
-          /\ dq' = IF Len(dq) > 0 THEN Tail(dq) ELSE dq
-          /\ UNCHANGED tid
+          /\ IF broken THEN Skip ELSE
+             /\ Env("item", toQ # <<>> /\ (Rec.bad => Head(toQ).kind = "callback"))
+             /\ Apply(Rec.bad)
+             /\ LET c1 == Rec.item = <<Head(toQ).kind, E(Head(toQ).meta)>>
+                    c2 == Rec.px[1] = px'.icpt
+                    c3 == Rec.bad \/ Rec.px[2] = E(px'.meta)
+                    c4 == Rec.bad \/ (Len(dq) > 0 /\ Rec.pd = Head(dq))
+                IN /\ Chk("Apply.item", c1)
+                   /\ Chk("Apply.resumed", c2)
+                   /\ Chk("Apply.metadata-intact", c3)
+                   /\ Chk("Apply.state-intact", c4)
+                   /\ broken' = ~(c1 /\ c2 /\ c3 /\ c4)
+             /\ dq' = IF Len(dq) > 0 THEN Tail(dq) ELSE dq
+             /\ UNCHANGED tid
 TNext == TReset \/ TTarget \/ TIReq \/ TIResp \/ THandle \/ TCall \/ TApply
 TraceSpec == TInit /\ [][TNext]_tvars
 TraceAccepted == PrintT("TRACE_REACHED " \o ToString(TLCGet("stats").diameter - 1) \o " OF " \o ToString(Len(TraceLog)))
